@@ -1,4 +1,5 @@
 import PoxModel.Proofs.FlowModRefine
+import PoxModel.Proofs.UndefBits
 /-! # C04 — the flow table evolves as the OpenFlow 1.0 FLOW_MOD / timeout state machine
 
 Property theorems only.  Model: `Model/FlowMod.lean` (`step`, `run` — `_rx_flow_mod` with its five handlers, the unknown-command
@@ -430,6 +431,35 @@ theorem undefined_bits_defect :
     (run (init Cfg.head 0 100 4) ops).1.table.map (·.data.cookie) = [1] ∧
     (Spec.run (specInit 0 100 4) ops).1.flows = [] ∧
     HistOk (init Cfg.repaired 0 100 4) ops ∧ (run (init Cfg.repaired 0 100 4) ops).1.table = [] := by decide
+
+/-- **Bits 22..31 of the wildcard word are absent** (repair C04-2, for every later use of the match, not only for what is stored):
+    two transmitted records that differ in the undefined bits only give the flow-mod handlers the same match object — so the entry
+    an ADD stores is the same, and every installed entry is selected or not selected alike by the strict test (ADD's replacement,
+    MODIFY_STRICT, DELETE_STRICT), by the non-strict test (MODIFY, DELETE) and under every out_port filter, whichever of the two
+    spellings installed the entry and whichever names it later. -/
+theorem undefined_bits_absent (cfg : Cfg) (h : cfg.maskUndefined = true) (r r' : OfMatch) (hr : maskUndef r = maskUndef r') :
+    rxMatch cfg r = rxMatch cfg r' ∧
+    (∀ (now : Nat) (fm : FlowModMsg), (mkEntry cfg now { fm with mtch := r }).mtch = (mkEntry cfg now { fm with mtch := r' }).mtch) ∧
+    (∀ (e : FEntry) (prio : Nat) (strict : Bool) (outPort : Option Nat),
+      isMatchedBy cfg e (rxMatch cfg r) prio strict outPort = isMatchedBy cfg e (rxMatch cfg r') prio strict outPort) ∧
+    (∀ (now : Nat) (fm : FlowModMsg) (m : OfMatch) (prio : Nat) (strict : Bool) (outPort : Option Nat),
+      isMatchedBy cfg (mkEntry cfg now { fm with mtch := r }) m prio strict outPort =
+      isMatchedBy cfg (mkEntry cfg now { fm with mtch := r' }) m prio strict outPort) := by
+  have e : rxMatch cfg r = rxMatch cfg r' := by
+    rw [← rxMatch_maskUndef cfg h r, ← rxMatch_maskUndef cfg h r', hr]
+  refine ⟨e, fun _ _ => e, fun _ _ _ _ => by rw [e], fun now fm m prio strict outPort => ?_⟩
+  unfold isMatchedBy mkEntry
+  simp only [e]
+
+/-- a record with some of the undefined bits set on top -/
+def withHi (m : OfMatch) (hi : Nat) : OfMatch := { m with wildcards := m.wildcards + hi * 2 ^ 22 }
+
+/-- the hypothesis is met by records that differ (all ten bits on match-all, bit 31 alone on a prefix match); with the repair the
+    strict test takes the two spellings for one flow, a tree without it does not -/
+example : maskUndef (withHi mAll 0x3ff) = maskUndef mAll ∧ withHi mAll 0x3ff ≠ mAll ∧
+    maskUndef (withHi mNet8 0x200) = maskUndef mNet8 ∧
+    strictMatch Cfg.repaired (rxMatch Cfg.repaired mNet8) (rxMatch Cfg.repaired (withHi mNet8 0x200)) = true ∧
+    strictMatch Cfg.head (rxMatch Cfg.head mNet8) (rxMatch Cfg.head (withHi mNet8 0x200)) = false := by decide
 
 /-- an ARP description whose (ignored) tp_src bit is clear, as a controller that only sets the bits it cares about sends it -/
 def mArpQ : OfMatch := { zeroMatch with wildcards := wc [.dlType, .tpSrc] 32 32, dlType := 0x0806 }
